@@ -82,17 +82,31 @@ def _names(prios):
 _JOB_ENV = {}
 
 
-def replay_job(job):
-    """lock-step replay of one behaviour (runs in a pool worker)"""
-    from sched import run_script
+def _outcome_case(cid, k, res, ref):
+    prios = []
+    for l in res["written"]:
+        nm = l.split("\t")[0]
+        prios.append(int(nm[1:]) if nm[1:].isdigit() else 0)
+    return {"id": cid, "R": k["R"], "faults": res["faults"], "end": res["end"], "end_detail": res["end_detail"], "prios": prios,
+            "lines": res["written"], "ref": ref, "diverged": res["diverged"]}
 
-    k, labels, inputs, bid = job
+
+def replay_job(job):
+    """lock-step replay of one behaviour (runs in a pool worker); if the implementation does not follow the
+    model step for step, the behaviour is replayed again as a mere schedule and judged on its outcome"""
+    from sched import run_schedule, run_script
+
+    k, labels, inputs, bid, ref = job
     os.environ["GAFTOOLS_VERIF"] = "1"
     os.environ["GAFTOOLS_VERIF_BATCH_SIZE"] = str(k["B"])
     gaf, gfa, fa = inputs
     argv = ["realign", gaf, gfa, fa, "-c", str(k["C"])]
     clause, detail = run_script(argv, k["Cap"], k["C"], labels, _names)
-    return bid, clause, detail
+    outcome = None
+    if clause != "ok":
+        res = run_schedule(argv, k["Cap"], k["C"], labels)
+        outcome = _outcome_case(f"{bid}", k, res, ref)
+    return bid, clause, detail, outcome
 
 
 def random_job(job):
@@ -119,6 +133,35 @@ def random_job(job):
     }
 
 
+def reschedule_job(job):
+    """a recorded random trace that the model rejected, replayed as a mere schedule"""
+    from sched import run_schedule
+
+    k, trace, inputs, ref, cid = job
+    os.environ["GAFTOOLS_VERIF"] = "1"
+    os.environ["GAFTOOLS_VERIF_BATCH_SIZE"] = str(k["B"])
+    gaf, gfa, fa = inputs
+    argv = ["realign", gaf, gfa, fa, "-c", str(k["C"])]
+    labels = [(e["t"], e.get("w"), None) for e in trace if e["t"][0] in "WP" and e["t"] not in ("HANG", "LIVELOCK", "STUCK")]
+    return _outcome_case(cid, k, run_schedule(argv, k["Cap"], k["C"], labels), ref)
+
+
+def judge_outcomes(ctx, outcomes, kind):
+    """runs that did not follow the model step for step: a violation only if the OUTCOME breaks the property"""
+    if not outcomes:
+        return
+    verdicts = ctx.validate("Check_RealignOutcome", outcomes)
+    div = ctx.notes.setdefault("model_divergences_with_correct_outcome", {"count": 0, "examples": []})
+    for o in outcomes:
+        v = verdicts[o["id"]]
+        if v != "ok":
+            ctx.violation(v, {"outcome": {x: o[x] for x in ("R", "faults", "end", "end_detail", "prios", "diverged")}, "how_the_model_was_left": o["lockstep"]})
+        else:
+            div["count"] += 1
+            if len(div["examples"]) < 3:
+                div["examples"].append({"strict_clause": o["lockstep"]["clause"], "diverged": o["diverged"], "end": o["end"]})
+
+
 def explore_config(ctx, k, n_random_walks, n_random_sched, max_tour=None):
     """TLC on the spec (design check), tour + random walks replayed in lock-step, random schedules
     validated by TLC. Returns nothing; records violations in ctx."""
@@ -132,6 +175,7 @@ def explore_config(ctx, k, n_random_walks, n_random_sched, max_tour=None):
         ctx.violation("single_core_output_wrong", {"cfg": k, "names": names})
     # ---- spec -> code
     cfgp = write_cfg(ctx, k, True)
+    key = f"R{k['R']}B{k['B']}C{k['C']}Cap{k['Cap']}F{k['F']}"
     (nodes, edges, init), r = gen_states(ctx, "Realign", cfgp, dot=True, coverage=False)
     g = tours.Graph(nodes, edges, init)
     beh = tours.transition_tour(g)
@@ -144,28 +188,27 @@ def explore_config(ctx, k, n_random_walks, n_random_sched, max_tour=None):
         for lab, dst in b:
             _, args = parse_action_label(lab)  # Do([t |-> "WPut", w |-> 1])
             labels.append((args[0]["t"], args[0].get("w"), nodes[dst]))
-        jobs.append((k, labels, inputs, f"b{bi}"))
+        jobs.append((k, labels, inputs, f"{key}-b{bi}", ref))
     res = pool_map(replay_job, jobs, chunk=4)
     ctx.evaluations += len(jobs)
-    key = f"R{k['R']}B{k['B']}C{k['C']}Cap{k['Cap']}F{k['F']}"
     nontriv = 0
-    for (kk, labels, _, bid), (_, clause, detail) in zip(jobs, res):
+    outcomes = []
+    for (kk, labels, _, bid, _r), (_, clause, detail, outcome) in zip(jobs, res):
         acts = [t for t, _, _ in labels]
         if "PTimeout" in acts or any(t.startswith("WKill") or t.startswith("WCrash") for t in acts):
             ctx.nontrivial.add((key, tuple((t, w) for t, w, _ in labels)))
             nontriv += 1
         if clause != "ok":
-            ctx.violation(
-                "lockstep_" + clause,
-                {"cfg": k, "behaviour": [f"{t}({w})" if w else t for t, w, _ in labels], "detail": detail},
-            )
+            outcome["lockstep"] = {"clause": clause, "detail": detail, "behaviour": [f"{t}({w})" if w else t for t, w, _ in labels], "cfg": k}
+            outcomes.append(outcome)
     ctx.validated += len(jobs)
+    judge_outcomes(ctx, outcomes, "lockstep")
     ctx.notes.setdefault("configs", []).append(
         {"cfg": key, "states": r.distinct, "edges": g.nedges, "tour_behaviours": len(beh) - n_random_walks,
          "random_walks": n_random_walks, "edges_covered_by_tour": g.nedges}
     )
     if jobs:
-        kk, labels, _, _ = jobs[len(jobs) // 2]
+        kk, labels, _, _, _r = jobs[len(jobs) // 2]
         ctx.sample({"cfg": key, "lockstep_behaviour": [f"{t}({w})" if w else t for t, w, _ in labels]})
     # ---- code -> spec
     rjobs = [(k, ctx.seed * 100003 + s, inputs, ref, f"{key}-s{s}") for s in range(n_random_sched)]
@@ -173,13 +216,22 @@ def explore_config(ctx, k, n_random_walks, n_random_sched, max_tour=None):
     ctx.evaluations += len(cases)
     trp = write_cfg(ctx, k, False)
     verdicts = ctx.validate("Check_Realign", cases, cfg=trp)
+    redo = []
     for c in cases:
         v = verdicts[c["id"]]
         ts = [e["t"] for e in c["trace"]]
         if "PTimeout" in ts or "WKill" in ts or "WCrash" in ts:
             ctx.nontrivial.add((key, "rnd", c["seed"]))
         if v != "ok":
-            ctx.violation("trace_" + v, c)
+            redo.append((k, c["trace"], inputs, ref, c["id"] + "-o"))
+            c["_strict"] = v
+    if redo:
+        outs = pool_map(reschedule_job, redo, chunk=4)
+        by = {c["id"] + "-o": c for c in cases}
+        for o in outs:
+            o["lockstep"] = {"clause": "trace_" + by[o["id"]]["_strict"], "seed": by[o["id"]]["seed"], "cfg": k,
+                             "trace": [f"{e['t']}({e.get('w', '')})" for e in by[o["id"]]["trace"]][:120]}
+        judge_outcomes(ctx, outs, "trace")
     if cases:
         c = cases[0]
         ctx.sample({"cfg": key, "random_schedule_trace": [f"{e['t']}({e.get('w','')})" for e in c["trace"]][:60], "end": c["end"]})
